@@ -108,6 +108,9 @@ fn hostile_none_argv(r: &mut Rng) -> Vec<String> {
                 "{\"a\":\"\\u0000\\u001f\\u007f\"}", "{\"z\":1,\"a\":2,\"m\":3}", "{\"a\":\"(\",\"b\":\")\",\"c\":\"//\",\"d\":\"/* */\"}", "{\"a\":1.0,\"b\":10000000000000000000000}",
                 "{\"a\":[],\"b\":{},\"c\":\"\"}", "[1,2,3]", "\"just a string\"", "42", "null", "true",
             ];
+            let deep = format!("{}1{}", "{\"a\":".repeat(70), "}".repeat(70));
+            let deep_arr = format!("{}{}", "[".repeat(100), "]".repeat(100));
+            let hostile_custom: Vec<&str> = hostile_custom.iter().copied().chain([deep.as_str(), deep_arr.as_str()]).collect();
             a.extend(["--custom".into(), r.pick(&hostile_custom).to_string()]);
         }
         for (flag, vals) in [
@@ -145,7 +148,7 @@ fn hostile_none_argv(r: &mut Rng) -> Vec<String> {
 }
 
 pub fn generate(r: &mut Rng, tier: Tier, _group: u64) -> serde_json::Value {
-    let kind = *r.pick(&["none", "none", "none", "git", "doc"]);
+    let kind = *r.pick(&["none", "none", "none", "git", "doc", "render"]);
     let (actors, mut ops, _) = c02::gen_history(r, 4, 10);
     let mut argv = vec![];
     let mut doc = String::new();
@@ -165,6 +168,19 @@ pub fn generate(r: &mut Rng, tier: Tier, _group: u64) -> serde_json::Value {
         "none" => {
             ops.clear();
             argv = hostile_none_argv(r);
+        }
+        "render" => {
+            // `zerv render <version> --output-format zerv` emits objects too
+            ops.clear();
+            let versions = [
+                "1.2.3", "v1.2.3-alpha.1", "1.2.3-rc.1.post.2", "1.2.3rc1", "1!2.3.4", "1.0.0+build.5", "1.0.0-epoch.0", "1.0.0-epoch.3.alpha.2", "2.0.0-alpha",
+                "1.2.3.post4.dev5", "1.0.0-x.y.z", "1.0.0-alpha.beta", "1.0.0-0.3.7", "1.2", "7", "1.2.3.4.5", "0.0.0", "1.0.0-post.1.dev.2", "1.0.0-dev.0",
+                "18446744073709551615.0.0", "1.0.0-alpha.4294967295", "1.0.0+a.b.c.1.2.3", "1.0a1+local.7",
+            ];
+            argv = vec!["render".to_string(), r.pick(&versions).to_string()];
+            if r.chance(1, 3) {
+                argv.extend(["--input-format".to_string(), r.pick(&["auto", "semver", "pep440"]).to_string()]);
+            }
         }
         _ => {
             ops.clear();
@@ -451,6 +467,7 @@ impl<'a> Pipe<'a> {
             stderr: crate::proc::Stdout::Capture,
             exe: None,
             umask: None,
+            cpus: None,
         };
         stats.bump("producer_processes");
         run_zerv(self.ctx, self.rd, &call, stats)
@@ -472,6 +489,7 @@ impl<'a> Pipe<'a> {
             stderr: crate::proc::Stdout::Capture,
             exe: None,
             umask: None,
+            cpus: None,
         };
         stats.bump("consumer_processes");
         run_zerv(self.ctx, self.rd, &call, stats)
